@@ -6,7 +6,7 @@ they are exposed through ``explore_orders`` and re-labelled by those modules.
 from __future__ import annotations
 
 import ast
-from typing import Any, Dict, Iterator, List, Optional, Tuple
+from typing import Any, Dict, Iterator, List, Optional, Set, Tuple
 
 from .. import absint as AI
 from .. import astutil as A
@@ -410,6 +410,72 @@ def rule_validation(ctx: Ctx) -> None:
                   str(need), f"missing positivity assertion(s): {[x for x in need if x not in asserts]}", key_text=f"{cname} asserts")
 
 
+def _nonneg_returns(ctx: Ctx, cls: str, fn, why: List[str], seen: Set[str]) -> bool:
+    """Sign analysis: every value the function returns is >= 0.  Domain {>=0, unknown}; constants, products and quotients of
+    non-negatives, even powers, locals (every definition), ``self._h(...)`` helpers of the same class (every return) and attributes
+    whose only definition in ``__init__`` is non-negative under the constructor's own assertions."""
+    if fn.qualname in seen:
+        return False
+    seen = seen | {fn.qualname}
+    ctx.analysed_funcs.add(fn.qualname)
+    rets = [r for r in C.walk_shallow(fn.node) if isinstance(r, ast.Return) and r.value is not None]
+    if not rets:
+        why.append(f"{fn.name}: no return")
+        return False
+    facts: Set[str] = set()
+    if fn.name == "__init__":
+        facts = {ast.unparse(n.test) for n in C.walk_shallow(fn.node) if isinstance(n, ast.Assert)}
+    return all(_nonneg(ctx, cls, fn, r.value, why, seen, facts) for r in rets)
+
+
+def _nonneg(ctx: Ctx, cls: str, fn, e: ast.AST, why: List[str], seen: Set[str], facts: Set[str], depth: int = 0) -> bool:
+    from .. import norm as N
+    if depth > 12:
+        return False
+    c = K.const_num(e)
+    if c is not None:
+        why.append(ast.unparse(e))
+        return c >= 0
+    if isinstance(e, ast.BinOp):
+        if isinstance(e.op, ast.Pow):
+            ex = K.const_num(e.right)
+            if ex is not None and ex == int(ex) and int(ex) % 2 == 0:
+                why.append("even power")
+                return True
+            return False
+        if isinstance(e.op, (ast.Mult, ast.Div, ast.Add)):
+            return _nonneg(ctx, cls, fn, e.left, why, seen, facts, depth + 1) and _nonneg(ctx, cls, fn, e.right, why, seen, facts, depth + 1)
+        return False
+    if isinstance(e, ast.IfExp):
+        return _nonneg(ctx, cls, fn, e.body, why, seen, facts, depth + 1) and _nonneg(ctx, cls, fn, e.orelse, why, seen, facts, depth + 1)
+    if isinstance(e, ast.Name):
+        if e.id in fn.params:
+            ok = any(f.replace(" ", "") in (f"{e.id}>=Decimal(0)", f"{e.id}>Decimal(0)", f"{e.id}>=0", f"{e.id}>0") for f in facts)
+            why.append(f"{e.id} asserted non-negative" if ok else f"parameter {e.id} of unknown sign")
+            return ok
+        ds = N.defs(fn).get(e.id, [])
+        return bool(ds) and all(not isinstance(d, ast.AugAssign) and _nonneg(ctx, cls, fn, d, why, seen, facts, depth + 1) for d in ds)
+    if isinstance(e, ast.Call) and (A.call_name(e) or "").startswith("self.") and (A.call_name(e) or "").count(".") == 1:
+        h = ctx.repo.funcs.get(f"{cls}.{A.call_name(e).split('.')[1]}")
+        return h is not None and _nonneg_returns(ctx, cls, h, why, seen)
+    if isinstance(e, ast.Call) and A.call_name(e) in ("abs",):
+        return True
+    if isinstance(e, ast.Call) and A.call_name(e) in ("max",) and e.args:
+        return any(_nonneg(ctx, cls, fn, a, why, seen, facts, depth + 1) for a in e.args)
+    if isinstance(e, ast.Attribute) and A.dotted(e) and A.dotted(e).startswith("self.") and A.dotted(e).count(".") == 1:
+        init = ctx.repo.funcs.get(f"{cls}.__init__")
+        if init is None:
+            return False
+        writers = [(f2, s_) for f2 in ctx.repo.methods_of(cls).values() for s_ in A.stores(f2) if A.dotted(s_.target) == A.dotted(e)]
+        if not writers or any(f2 is not init or not isinstance(s_.node, (ast.Assign, ast.AnnAssign)) for f2, s_ in writers):
+            why.append(f"{A.dotted(e)} is written outside __init__")
+            return False
+        ifacts = {ast.unparse(n.test) for n in C.walk_shallow(init.node) if isinstance(n, ast.Assert)}
+        return all(_nonneg(ctx, cls, init, s_.node.value, why, seen, ifacts, depth + 1) for _, s_ in writers)
+    why.append(f"unrecognised {ast.unparse(e)[:40]}")
+    return False
+
+
 def rule_impact_sign(ctx: Ctx) -> None:
     """Discharges the interpreter's assumption 'price impact >= 0' for every LiquidityStrategy in basana."""
     base = "basana.backtesting.liquidity.LiquidityStrategy"
@@ -419,32 +485,8 @@ def rule_impact_sign(ctx: Ctx) -> None:
         fn = ctx.repo.funcs.get(f"{cls}.calculate_price_impact")
         ctx.require(fn is not None, f"C04.4: {cls}.calculate_price_impact not found")
         ctx.analysed_funcs.add(fn.qualname)
-        rets = [r for r in C.walk_shallow(fn.node) if isinstance(r, ast.Return) and r.value is not None]
-        ok = bool(rets)
-        why = []
-        for r in rets:
-            v = r.value
-            if K.const_num(v) is not None:
-                ok &= K.const_num(v) >= 0
-                why.append(ast.unparse(v))
-            elif isinstance(v, ast.Call) and (A.call_name(v) or "") == "self._volume_share_impact":
-                h = ctx.repo.funcs.get(f"{cls}._volume_share_impact")
-                okh = False
-                if h is not None:
-                    ctx.analysed_funcs.add(h.qualname)
-                    vals = [s.node.value for s in A.stores(h) if isinstance(s.target, ast.Name) and s.target.id == "ret" and isinstance(s.node, ast.Assign)]
-                    # ret is 0, or (used / total) ** 2 * pct with pct = price_impact / 100 and price_impact >= 0 asserted
-                    okh = bool(vals) and all(
-                        (K.const_num(x) is not None and K.const_num(x) >= 0)
-                        or ast.unparse(x).replace(" ", "") == "used_pct**Decimal(2)*self._price_impact_pct" for x in vals)
-                    init = ctx.repo.funcs.get(f"{cls}.__init__")
-                    asserts = [ast.unparse(n.test) for n in C.walk_shallow(init.node) if isinstance(n, ast.Assert)] if init else []
-                    okh = okh and "price_impact >= Decimal(0)" in asserts and "self._price_impact_pct = price_impact / Decimal(100)" in ast.unparse(init.node)
-                ok &= okh
-                why.append("square x non-negative percentage")
-            else:
-                ok = False
-                why.append(f"unrecognised {ast.unparse(v)[:40]}")
+        why: List[str] = []
+        ok = _nonneg_returns(ctx, cls, fn, why, set())
         ctx.check(ok, "C04.4", f"{cls.rsplit('.', 1)[-1]}: price impact is never negative (premise of the slippage bounds)", fn, fn.node, str(why),
                   f"cannot establish impact >= 0 ({why}): a negative impact would move a buy below / a sell above the reference price",
                   key_text=f"impact sign {cls}")
